@@ -34,6 +34,12 @@ def main():
                 h = j["history"]
                 engines = {o: build.make_engine(kd, lib=lib) for o, kd in h["kinds"].items()}
                 for cl in h["calls"]:
+                    if cl[0] == "drop":
+                        import gc
+                        engines.pop(cl[1], None)
+                        gc.collect()
+                        engines[cl[1]] = build.make_engine(h["kinds"][cl[1]], lib=lib)
+                        continue
                     e = engines[cl[1]]
                     if cl[0] == "setup":
                         e.setup(engine_rec.make_script(h["cfgs"][cl[2]]))
